@@ -94,6 +94,11 @@ CHECKS = {
     technique="TLA+ composition of per-connection machines with the HPACK table as the only candidate shared state (Analyzer.tla), all interleavings model-checked by TLC for NonInterference (and shown to fail with one shared table); TLC-enumerated interleavings of real connections replayed into the four analyzers, interleaved vs alone compared per connection (TV_C07)",
     text="TLC explores every order-preserving interleaving of connection scripts, including HTTP/2 blocks that insert into the dynamic table, reference entry 62 without inserting, or shrink the table to 0, and shows each connection's outputs equal its outputs alone with per-connection tables but not with one shared table; it then enumerates every interleaving of the packets of 2-3 real connections (TCP handshakes with timestamps, two-segment ClientHellos, an HTTP/1 exchange, four HTTP/2 connection starts rendered by the Hpack/Http2 specifications, adversarial ones included), each replayed into one HuginnNetHttp / HuginnNetTls / HuginnNetTcp / HuginnNet instance and each connection alone into a fresh instance, and checks per connection that the attributed result sequences are equal.",
     note="Trusted: TLC, Analyzer/Hpack/Http2 specs, result attribution by endpoints, hook H1. Quick tier samples up to 150 interleavings per connection set; thorough enumerates them."),
+ "C11": dict(
+    level="exploration", design="§5 C11",
+    technique="TLA+ resource model and bounds (Resources.tla; design bounded, recorded deviations unbounded, checked by TLC); traces measured by a counting allocator on long adversarial connections through the HTTP, TLS, TCP and unified analyzers, every recorded event validated by TLC against the bounds (TV_C11)",
+    text="Resources.tla states the bounds (retained <= base + connections x 256 KiB; allocated per packet <= 1 MiB + 64 x frame length) and a small model showing that buffering at most a fixed amount and examining the buffer once per packet satisfies them for every history length while unbounded storing / re-parsing does not; the harness's counting global allocator measures both quantities for every packet of connections of up to 2 000 (thorough 20 000) segments of 1 400 bytes that never yield a fingerprint (endless HTTP-looking head, TLS application data, non-ClientHello record then data, huge declared record, random bytes, endless body), in both directions, at capacity 1 and with capacity-many connections, and TLC checks every recorded event.",
+    note="Measured, not proved: level `exploration`. Constants are this check's reading of the statement. Real-time TTL expiry not relied on."),
 }
 
 NOT_YET = {}
